@@ -20,25 +20,71 @@ class Box(dict):
     __setattr__ = dict.__setitem__
 
 
-def single_path(fn, timeout_ms=30000):
-    """Run fn(engine) expecting exactly one (fully merged) path.  Returns (engine, box) where box is
-    whatever fn returned; the obligations met on the way stay in engine.collected."""
-    eng = Engine(timeout_ms=timeout_ms)
-    box = {}
-    eng.collected = []
+def _merge_vals(pcs, vals):
+    """value-level join of per-path results: ite over the (mutually exclusive) path conditions"""
+    v0 = vals[0]
+    if all(v is v0 for v in vals):
+        return v0
+    if isinstance(v0, SymArray):
+        cells = []
+        lists = [v.cells_list() for v in vals]
+        for k in range(len(lists[0])):
+            cells.append(_merge_vals(pcs, [l[k] for l in lists]))
+        return SymArray(cells, v0.shape, name=v0.name, dtype=v0.dtype)
+    if isinstance(v0, (list, tuple)):
+        return type(v0)(_merge_vals(pcs, [v[k] for v in vals]) for k in range(len(v0)))
+    if isinstance(v0, dict):
+        return type(v0)({k: _merge_vals(pcs, [v[k] for v in vals]) for k in v0})
+    if isinstance(v0, (bool, core.SymBool)) and all(isinstance(v, (bool, core.SymBool)) for v in vals):
+        r = core.bexpr(vals[-1])
+        for pc, v in zip(reversed(pcs[:-1]), reversed(vals[:-1])):
+            r = z3.If(pc, core.bexpr(v), r)
+        return core.mkb(r)
+    if all(isinstance(v, (int, SymInt, core.SymBool)) or z3.is_expr(v) for v in vals):
+        r = lift(vals[-1])
+        for pc, v in zip(reversed(pcs[:-1]), reversed(vals[:-1])):
+            r = z3.If(pc, lift(v), r)
+        if z3.is_expr(v0):
+            return z3.simplify(r)
+        return mk(r)
+    if all(v == v0 for v in vals):
+        return v0
+    raise EngineError(f"cannot join per-path values of type {type(v0)}")
+
+
+def single_path(fn, timeout_ms=30000, max_paths=400):
+    """Run fn(engine) on all of its paths (normally exactly one: the kernels are fully merged) and return
+    (engine, box) where box is what fn returned; if the code forks, the per-path results are joined by ite
+    over the path conditions, so callers always see one symbolic result.  Obligations met on the way are in
+    engine.collected (guarded by their path condition)."""
+    eng = Engine(timeout_ms=timeout_ms, max_paths=max_paths)
+    per = []
 
     def wrapped(e):
         e.batch = True
+        n0 = len(e.s.assertions())
         r = fn(e)
-        e.collected = list(e.pending)
+        coll = list(e.pending)
         e.pending = []
-        box["r"] = r
+        asr = list(e.s.assertions())
+        per.append((asr, r, coll))
     ok = eng.explore(wrapped)
-    if eng.paths != 1 or eng.work:
-        raise EngineError(f"expected a single merged path, got {eng.paths} (+{len(eng.work)} pending); aborts={eng.aborts}")
-    if eng.aborts:
-        raise EngineError(f"single path aborted: {eng.aborts}")
-    return eng, box.get("r")
+    bad = {k: v for k, v in eng.aborts.items() if k not in ("infeasible",)}
+    if not per or eng.work or bad or not eng.exhausted:
+        raise EngineError(f"exploration incomplete: paths={eng.paths} pending={len(eng.work)} aborts={eng.aborts}")
+    if len(per) == 1:
+        eng.collected = per[0][2]
+        eng.path_assumptions = per[0][0]
+        return eng, per[0][1]
+    # common prefix of assertions = the assumptions; the rest are the branch decisions
+    k = 0
+    while all(len(a) > k for a, _, _ in per) and all(a[k].eq(per[0][0][k]) for a, _, _ in per):
+        k += 1
+    pcs = [z3.And(*a[k:]) if len(a) > k else z3.BoolVal(True) for a, _, _ in per]
+    eng.path_assumptions = per[0][0][:k]
+    eng.collected = [(l, z3.Implies(pc, c)) for pc, (_, _, coll) in zip(pcs, per) for l, c in coll]
+    box = _merge_vals(pcs, [r for _, r, _ in per])
+    return eng, box
 
 
 def obligations_formula(collected, prefix=None):
